@@ -7,13 +7,17 @@ from .. import rules_v4 as R4
 LEVEL = "other"
 
 EXPLANATION = (
-    "The full relation is numeric on a discrete grid (the 3.x changed-scope impact polynomial is not monotone on the "
-    "reals), so only necessary conditions and compositional sub-cases are decided: weight leaves weakly monotone along "
-    "the specification's severity order (all weighted metrics, both PR tables); the v4 lookup monotone along every digit "
-    "increment and the level tables strictly monotone; inside one macrovector the v4 score is value - mean of "
-    "non-negative multiples of the severity distances (from the C02 tail equality and table facts); sign-rule "
-    "certificates (partial derivatives bounded >= 0 by multilinear vertex enumeration, threshold ITEs at the bottom of a "
-    "clamp) where they can be derived. Everything else is listed as undecided."
+    "v2 and v3: decided on the value graphs of the score attributes. Weight leaves are weakly monotone along the "
+    "specification's severity order (all weighted metrics, both PR tables, Scope); every score is then shown "
+    "non-decreasing in every metric by sign rules (partial derivatives bounded >= 0 by multilinear vertex enumeration, "
+    "threshold ITEs, path facts) and, where the sign rules fail (the changed-scope impact polynomial is not monotone on "
+    "the reals; steps of S / MS switch formulas), by exact tabulation: the failing sub-term is folded into a finite table "
+    "over the images of its weight leaves (exact rationals, float-filtered) along every chain of the stepped metric; a grid "
+    "step on which a sub-term decreases is carried to the enclosing rounded term and, if it survives, to the score "
+    "itself. A surviving step is a pair of concrete vectors on which the value graph of the score decreases and is "
+    "reported with both vectors. v4: the lookup is monotone along every digit increment, the level tables strictly "
+    "monotone, and inside one macrovector the score is value - mean of non-negative multiples of the severity distances "
+    "(from the C02 tail equality); monotonicity across macrovector boundaries is listed as undecided."
 )
 
 
@@ -61,6 +65,9 @@ def run(ctx):
                     "severity levels of %s are not strictly ordered with severity (%s)" % (k, bad),
                 )
     led.require_min("C14.levels", nlev, 10, "v4 level tables")
+    # the within-macrovector argument measures the distances against the highest-severity vector the
+    # search selects: the search facts it starts from are discharged here (rules keep their C02 names)
+    R4.check_search(ctx, led, om4)
     R4.check_tail(ctx, led, om4)
     led.ok("C14.within", "CVSS4 score inside one macrovector", "cvss/cvss4.py", "value - mean(a_i*d_i/(D_i*0.1)) with a_i >= 0 (lookup monotone), D_i > 0 (depth tables): non-increasing in every distance")
     total_cert = 0
@@ -79,4 +86,3 @@ def run(ctx):
             )
     led.require_min("C14.compose", total_cert, 50, "monotonicity certificates derived")
     led.undecided("C14.v4.cross", "monotonicity across v4 macrovector boundaries depends on the numbers (interpolated score vs every score of the next-lower class)")
-    led.undecided("C14.scope", "steps of S/MS themselves and v3 Scope changed (the impact polynomial is not monotone on the reals)")
